@@ -55,6 +55,10 @@ Theorem reload_source_shape :
   Gen.Consts.load_config_stages = ["os.ReadFile!"; "readConfig!"; "config.Validate!"; "s.runConfig!"; "s.Stop"]%string /\
   Gen.Consts.start_error_returns_before_stop_wait = true /\
   Gen.Consts.run_config_defers_listener_close = true /\
-  Gen.Consts.run_config_waits_for_release_on_error = true.
+  Gen.Consts.run_config_waits_for_release_on_error = true /\
+  (* what validation accepts is what start-up can run: listeners are keyed by their type string as
+     written (no normalisation start-up would not share), and the four refusals are in place *)
+  Gen.Consts.validate_listener_key = "string(lnConfig.Type) + ""/"" + lnConfig.Address"%string /\
+  List.length Gen.Consts.validate_errors = 4.
 Proof. repeat split; reflexivity. Qed.
 Print Assumptions reload_source_shape.
